@@ -245,7 +245,7 @@ def observe(fn, fmt):
 
 def file_side(hw, old, new, add_comments):
     from annet import api
-    _rb, diff, _pre, patch = api._read_old_new_diff_patch(old, new, hw, add_comments)
+    _rb, diff, _pre, patch = env.call_private(api, "_read_old_new_diff_patch", old, new, hw, add_comments)
     return diff, patch
 
 
@@ -500,7 +500,7 @@ def workers(hw, old_text, new_text, add_comments, scratch, indent=WORKER_INDENT)
     def dev_patch():
         old, new = dev_trees()
         _d, patch = device_side(hw, old, new, add_comments)
-        text = api._format_patch_blocks(patch, hw, indent)
+        text = env.call_private(api, "_format_patch_blocks", patch, hw, indent)
         return [["new.cfg", text, False]] if text else []
 
     def dev_diff():
@@ -622,7 +622,7 @@ def _candidates(raw_rule, regexp):
 def _hits(rules, row, raw_rule):
     """does `row` select rule `raw_rule` at this level of the real rulebook -> (key, children_rules) or None"""
     from annet.annlib import patching as lp
-    match, children = lp._match_row_to_rules(row, rules)
+    match, children = env.call_private(lp, "_match_row_to_rules", row, rules)
     if match and match["raw_rule"] == raw_rule:
         return tuple(match["key"]), children
     return None
